@@ -21,7 +21,7 @@ def replay_cases(run, replay, casefile):
 def journal_plan(prop):
     def plan(run, replay=None):
         q = run.tier == "quick"
-        run.build_harness()
+        run.build_harness(["journal"])
         if replay:
             replay_cases(run, replay, "cases.ndjson")
             gen = 0
@@ -63,7 +63,7 @@ def journal_plan(prop):
 # ------------------------------------------------------------------------------------- directory source
 def c19_plan(run, replay=None):
     q = run.tier == "quick"
-    run.build_harness()
+    run.build_harness(["dirsrc"])
     if replay:
         replay_cases(run, replay, "cases.ndjson")
     else:
@@ -91,7 +91,7 @@ def c19_plan(run, replay=None):
 # ------------------------------------------------------------------------------------------ CSV export
 def c20_plan(run, replay=None):
     q = run.tier == "quick"
-    run.build_harness()
+    run.build_harness(["csvx"])
     args = ["-in", "cases.ndjson", "-out", "trace.ndjson", "-gen", 3 if q else 30, "-seed", run.seed]
     if replay:
         replay_cases(run, replay, "cases.ndjson")
@@ -125,7 +125,7 @@ def realtime_plan(prop, pools, floors):
     """pools: list of (cfg_quick, cfg_thorough, zones, maxperm); all go through driver `realtime` and RealtimeObs."""
     def plan(run, replay=None):
         q = run.tier == "quick"
-        run.build_harness()
+        run.build_harness(["realtime"] + (["nycttrips"] if prop in ("C04", "C07") else []))
         total = 0
         if replay:
             replay_cases(run, replay, "cases0.ndjson")
@@ -178,7 +178,7 @@ def realtime_plan(prop, pools, floors):
 # ------------------------------------------------------------------------------------------- NYCT trips
 def c16_plan(run, replay=None):
     q = run.tier == "quick"
-    run.build_harness()
+    run.build_harness(["nycttrips"])
     if replay:
         replay_cases(run, replay, "cases.ndjson")
         origins = "none"
@@ -209,7 +209,7 @@ def c16_plan(run, replay=None):
 # ------------------------------------------------------------------------------------------ NYCT alerts
 def c17_plan(run, replay=None):
     q = run.tier == "quick"
-    run.build_harness()
+    run.build_harness(["nyctalerts"])
     if replay:
         replay_cases(run, replay, "cases.ndjson")
     else:
@@ -238,7 +238,7 @@ def c17_plan(run, replay=None):
 # ------------------------------------------------------------------------------------------------ hash
 def c13_plan(run, replay=None):
     q = run.tier == "quick"
-    run.build_harness()
+    run.build_harness(["hash"])
     if replay:
         replay_cases(run, replay, "cases.ndjson")
     else:
@@ -263,7 +263,7 @@ def c13_plan(run, replay=None):
 # --------------------------------------------------------------------------------------------- session
 def c06_plan(run, replay=None):
     q = run.tier == "quick"
-    run.build_harness()
+    run.build_harness(["session"])
     if replay:
         replay_cases(run, replay, "cases.ndjson")
     else:
@@ -291,8 +291,8 @@ def c06_plan(run, replay=None):
 def c18_plan(run, replay=None):
     import re
     q = run.tier == "quick"
-    run.build_harness()
-    race_bin = run.build_harness(race=True)
+    run.build_harness(["concurrent"])
+    race_bin = run.build_harness(["concurrent"], race=True)
     if replay:
         replay_cases(run, replay, "sched.ndjson")
         import shutil
@@ -390,7 +390,13 @@ def cursor_stage(run, replay=None):
         run.tlc("CsvCursorMC", "CSV_exhaustive3.cfg" if q else "CSV_exhaustive.cfg", "design", workers=8, cases_out="cursor_cases.ndjson")
         run.tlc("CsvCursorMC", "CSV_sim.cfg", "design", workers=1, simulate=1500 if q else 30000, depth=13, seed=run.seed,
                 cases_out="cursor_cases.ndjson")
-    s = run.harness("csvapi", ["-in", "cursor_cases.ndjson", "-out", "cursor_obs.ndjson"], timeout=1200)
+    cursor_bin = run.build_harness(["csvapi"], optional=True)
+    if cursor_bin is None:
+        # a supplementary stage: the replay driver is written against the cursor's present API (csv.New, RequiredColumn,
+        # OptionalColumn, NextRow, MissingRowKeys, warnings.NewStaticWarning); with another API there is nothing to replay
+        run.notes.append("cursor stage skipped: package csv no longer has the API the replay driver is written against")
+        return
+    s = run.harness("csvapi", ["-in", "cursor_cases.ndjson", "-out", "cursor_obs.ndjson"], binary=cursor_bin, timeout=1200)
     run.load_inputs("cursor_obs.ndjson.inputs")
     run.validate_trace("CsvCursorObs", "cursor_obs.ndjson", s["cases"], timeout=1800)
     if not replay:
@@ -403,7 +409,7 @@ def static_plan(prop, pools_quick, pools_thorough, floors, large=False):
     are re-allocated many times while pointers into them are outstanding."""
     def plan(run, replay=None):
         q = run.tier == "quick"
-        run.build_harness()
+        run.build_harness(["static"])
         gen = []
         if is_cursor_replay(replay):
             cursor_stage(run, replay)
@@ -440,7 +446,7 @@ def static_plan(prop, pools_quick, pools_thorough, floors, large=False):
 # ------------------------------------------------------------------------------------------ robustness
 def c05_plan(run, replay=None):
     q = run.tier == "quick"
-    run.build_harness()
+    run.build_harness(["robust", "static", "nycttrips", "nyctalerts", "realtime", "journal"])
     if replay:
         r = json.load(open(replay))
         raise vcore.Infra("C05 replay files carry the failing bytes (hex) and the plan entry; re-run bin/check C05 with the same "
